@@ -477,12 +477,26 @@ package ion
 //@ ensures[C07,C15] old(b.len) == 0 ==> err != nil
 //@ safe[C06]
 
+// The annotation IDs are read from inside the wrapper only: the cursor never passes the
+// wrapper's end (and so never the enclosing container's), each ID is bounded by what is left
+// of annot_length, and the length handed to validateAnnotatedValue is what the wrapper has
+// left after annot_length and the IDs, computed without wrap-around.
 //@ func (*bitstream).ReadAnnotations
-//@ trusted assumed for callers until the annotation wrapper decoding is under contract: on success the stream stands before the enclosed value
 //@ requires bsLocal(b) && bsOn(b, bitcodeAnnotation) && symbolTable != nil
 //@ modifies b.pos, b.state, b.code, b.null, b.len, vcStreamOf(b.in).cur
-//@ ensures bsStream(b)
-//@ ensures err == nil ==> bsLocal(b) && b.state == bssBeforeValue && bsCleared(b)
+//@ invariant loop0 bsStream(b) && b.len == old(b.len) && b.state == old(b.state) && b.code == old(b.code) && len(b.stack.arr) == old(len(b.stack.arr)) && (len(b.stack.arr) == 0 || bsTopEnd(b) == old(bsTopEnd(b)))
+//@ invariant loop0 old(b.pos) <= old(b.pos)+old(b.len) && old(b.pos) < b.pos && b.pos <= old(b.pos)+old(b.len)
+//@ invariant loop0 [annotFieldLength uint64] b.pos <= b.pos+annotFieldLength && b.pos+annotFieldLength <= old(b.pos)+old(b.len)
+//@ invariant loop0 [annotFieldLength uint64, remainingAnnotationLength uint64] remainingAnnotationLength == old(b.pos)+old(b.len)-b.pos-annotFieldLength && remainingAnnotationLength >= 1
+//@ invariant loop0 len(b.stack.arr) == 0 || old(b.pos)+old(b.len) <= bsTopEnd(b)
+//@ invariant loop0 [annotFieldLength uint64, as []SymbolToken] len(as) >= 1 || annotFieldLength > 0
+//@ atcall[C03,C06] (*bitstream).validateAnnotatedValue :: *bitstream, uint64 :: a1 >= 1 && a0.pos+a1 == old(b.pos)+old(b.len)
+//@ atcall[C03] (*bitstream).validateAnnotatedValue :: *bitstream, uint64 :: a1 == old(b.len)-specVarUintEnd(old(vcStreamOf(b.in)))-specVarUintValue(old(vcStreamOf(b.in).data), old(vcStreamOf(b.in).cur), specVarUintEnd(old(vcStreamOf(b.in))))
+//@ ensures[C03,C06,C08] bsStream(b)
+//@ ensures[C03,C06,C08] err == nil ==> bsLocal(b) && b.state == bssBeforeValue && bsCleared(b)
+//@ ensures[C03,C08] err == nil ==> b.pos > old(b.pos) && b.pos < old(b.pos)+old(b.len)
+//@ ensures[C03] err == nil ==> len(result) >= 1
+//@ safe[C06]
 
 //@ func (*bitstream).ReadBVM
 //@ split returns
@@ -1661,9 +1675,15 @@ package ion
 //@ trusted thin: called by contract, nothing assumed but termination (reflection-heavy, not under contract)
 //@ modifies *
 
+// An Ion int decoded into an interface{} keeps its value: the 32-bit and 64-bit sizes arrive
+// as int and int64 holding exactly what the Reader returned.
 //@ func (*Decoder).decodeInt
-//@ trusted thin: called by contract, nothing assumed but termination (reflection-heavy, not under contract)
+//@ split returns
+//@ requires d.r != nil && !d.r.IsNull()
 //@ modifies *
+//@ ensures[C13,C17] err == nil && specIntSizeOf(d.r) == Int64 ==> result.(int64) == *specInt64Of(d.r)
+//@ ensures[C13,C17] err == nil && specIntSizeOf(d.r) == Int32 ==> result.(int) == *specIntOf(d.r)
+//@ safe[C06,C17]
 
 //@ func ParseDecimal
 //@ trusted thin: assumed to return a decimal or an error (text parsing not under contract)
@@ -1681,9 +1701,18 @@ package ion
 //@ func fieldsFor
 //@ trusted thin: called by contract (field discovery by reflection, not under contract)
 //@ modifies nothing
+// omitempty drops exactly the zero values of the field's kind: a pointer or interface only
+// when it is nil (never for what it points to), a struct never.
 //@ func emptyValue
-//@ trusted thin: called by contract
 //@ modifies nothing
+//@ ensures[C16] v.Kind() == reflect.Ptr || v.Kind() == reflect.Interface ==> result == v.IsNil()
+//@ ensures[C16] v.Kind() == reflect.Array || v.Kind() == reflect.Map || v.Kind() == reflect.Slice || v.Kind() == reflect.String ==> result == (v.Len() == 0)
+//@ ensures[C16] v.Kind() == reflect.Bool ==> result == !v.Bool()
+//@ ensures[C16] v.Kind() == reflect.Int || v.Kind() == reflect.Int8 || v.Kind() == reflect.Int16 || v.Kind() == reflect.Int32 || v.Kind() == reflect.Int64 ==> result == (v.Int() == 0)
+//@ ensures[C16] v.Kind() == reflect.Uint || v.Kind() == reflect.Uint8 || v.Kind() == reflect.Uint16 || v.Kind() == reflect.Uint32 || v.Kind() == reflect.Uint64 || v.Kind() == reflect.Uintptr ==> result == (v.Uint() == 0)
+//@ ensures[C16] v.Kind() == reflect.Float32 || v.Kind() == reflect.Float64 ==> result == (v.Float() == 0)
+//@ ensures[C16] v.Kind() == reflect.Struct || v.Kind() == reflect.Invalid || v.Kind() == reflect.Func || v.Kind() == reflect.Chan ==> !result
+//@ safe[C06,C16]
 //@ func (*Encoder).encodeTimestamp
 //@ trusted thin: called by contract
 //@ modifies *
@@ -2226,25 +2255,29 @@ package ion
 //@ split returns
 //@ requires tkStream(t)
 //@ modifies *
-//@ invariant loop0 [err error] tkStream(t) && err == nil && (old(len(t.buffer)) == 0 ==> len(t.buffer) == 0) && tkS(t) == old(tkS(t)) && tkS(t).end == old(tkS(t).end)
+//@ invariant loop0 [err error, ret []int, i int] tkStream(t) && err == nil && (old(len(t.buffer)) == 0 ==> len(t.buffer) == 0) && tkS(t) == old(tkS(t)) && tkS(t).end == old(tkS(t).end) && len(ret) == i && 0 <= i && (n >= 0 ==> i <= n)
 //@ invariant loop1 [err error] tkStream(t) && tkS(t) == old(tkS(t)) && (old(len(t.buffer)) == 0 && old(tkS(t).end) != io.EOF ==> err != io.EOF)
 //@ ensures[C06,C19] tkStream(t)
 //@ ensures[C19] old(len(t.buffer)) == 0 && old(tkS(t).end) != io.EOF ==> err != io.EOF
+//@ ensures[C02,C06] err == nil && n >= 0 ==> len(result) == n
 //@ func (*tokenizer).skipN
-//@ trusted thin: called by contract
 //@ requires tkStream(t)
-//@ modifies *
-//@ ensures tkStream(t)
+//@ modifies t.pos, t.buffer, vcStreamOf(t.in).cur
+//@ invariant loop0 tkStream(t) && tkS(t) == old(tkS(t))
+//@ ensures[C06,C19] tkStream(t)
+//@ ensures[C19] err != nil ==> err != io.EOF
+//@ safe[C06]
 //@ func (*tokenizer).skipWhitespaceWith
 //@ trusted thin: called by contract
 //@ requires tkStream(t)
 //@ modifies *
 //@ ensures tkStream(t)
 //@ func (*tokenizer).IsTripleQuote
-//@ trusted thin: called by contract
 //@ requires tkStream(t)
 //@ modifies *
-//@ ensures tkStream(t)
+//@ ensures[C06,C19] tkStream(t)
+//@ ensures[C02] err != nil ==> !result
+//@ safe[C06]
 
 //@ func (*tokenizer).skipEndOfLongString
 //@ split returns
